@@ -220,6 +220,13 @@ impl<VM: VMBinding> CopySpace<VM> {
             crate::util::metadata::vo_bit::bzero_vo_bit(start, size);
         }
 
+        #[cfg(mmtk_verif)]
+        crate::util::verif::rt::event(
+            crate::util::verif::rt::ev::PAGES_RESET,
+            self.common.descriptor.get_index(),
+            0,
+            0,
+        );
         unsafe {
             self.pr.reset();
         }
